@@ -35,6 +35,10 @@ func runC11(c *Ctx) {
 	defer crWorkerCheckpoint(c)()
 	c.Res.Rule = "(1) crash images as in C04 on transaction-heavy workloads (40% explicit transactions with bodies of 1-40 operations written in 1-3 Transaction.Write calls and spanning several internal table flushes, a third discarded; 10% batches larger than the write buffer, which DB.Write routes through a transaction): in every image taken after Commit returned nil the transaction is entirely present; a discarded one or one whose Commit had not been called is entirely absent; with Commit in flight entirely present or absent (head and tail marker agree, contents equal the present batches applied in order); a concurrent Put issued while the transaction is open has not returned before Commit/Discard and returns afterwards (watchdog); nested images during recovery. (2) residue: the table files a transaction spilled are gone from storage (stor.Files vs VerifDump live set) after Discard + settle, and after Close with the transaction still open + reopen. (3) failed commits: manifest write/sync failures (1-4 consecutive, with/without effect) injected into Commit; on error Discard; more writes; Close; reopen a copy: opens, every acknowledged write present, the transaction whole or absent. (4) an iterator obtained from a transaction and kept across Discard still shows what it showed (D16). (5) after Discard the file number of a spilled table is reused: reads must not come from cached blocks of the discarded table. (6) Commit waits for a table compaction after installing the transaction (level-0 count at WriteL0PauseTrigger 2-4) and that compaction fails or the DB is closed meanwhile: what Commit reports matches what is visible (nil = all, error + Discard = none or, after reopen, all), reads keep working, the files reopen. One evaluation = one reopened image (1) or one scenario (2-6); non-trivial = a transaction spilled at least one table / at least one batch issued. (6) trace validation: transaction-heavy concurrent runs (explicit transactions every 2-5 rounds, large batches via the transaction path) whose synchronisation events and reads are replayed through the compiled interleaving model; a sample of the crash images of (1) is decoded and recovered by the compiled durable model and compared with the reopened DB."
 	once := &crSigOnce{}
+	c11StaleCacheRace(c)
+	if len(c.Res.Violations) > 0 {
+		return
+	}
 	// ---- (2)-(5): scenarios, a small share of the budget -----------------------------------------
 	nsc := c.Scale(600, 15000)
 	par := runtime.GOMAXPROCS(0)
